@@ -252,6 +252,16 @@ func BuildCSR(csr M) (string, []string, error) {
 		}
 		tpl.ExtraExtensions = []pkix.Extension{{Id: oidSAN, Critical: true, Value: val}}
 	}
+	if str(csr, "ext") == "ca" {
+		// the request asks to be a CA: basicConstraints CA:TRUE and keyUsage digitalSignature|keyCertSign|cRLSign
+		bc, _ := asn1.Marshal(struct {
+			IsCA bool `asn1:"optional"`
+		}{true})
+		ku, _ := asn1.Marshal(asn1.BitString{Bytes: []byte{0x86}, BitLength: 7})
+		tpl.ExtraExtensions = append(tpl.ExtraExtensions,
+			pkix.Extension{Id: asn1.ObjectIdentifier{2, 5, 29, 19}, Critical: true, Value: bc},
+			pkix.Extension{Id: asn1.ObjectIdentifier{2, 5, 29, 15}, Critical: true, Value: ku})
+	}
 	der, err := x509.CreateCertificateRequest(rand.Reader, tpl, csrKey)
 	if err != nil {
 		return "", uris, err
